@@ -337,6 +337,47 @@ pub fn run(ctx: &Ctx) {
             }
         }
     }
+    // ---- (3c) key decoding, completely over the non-canonical band: every encoding whose y integer is in [p, 2^255)
+    //           (19 values, both sign bits) and its canonical twin y - p.  "The key bytes decode to a curve point"
+    //           is the first leg of the documented rule; most of these points have no known discrete logarithm, so
+    //           no accepted signature can exhibit a wrong refusal: the decoder itself is asked.
+    {
+        use ed25519_dalek::VerifyingKey;
+        let p = fp::p();
+        let mut n_dec = 0u64;
+        for k in 0..19u64 {
+            for base in [p.add(&U::from_u64(k)), U::from_u64(k)] {
+                for sign in [0u8, 0x80] {
+                    let mut b = base.to_le32();
+                    b[31] |= sign;
+                    ctx.eval(1);
+                    let case = json!({"kind": "key_decode", "bytes": hex(&b)});
+                    ctx.case(&case.to_string());
+                    let want = ed::decompress(&b);
+                    let got = crate::ev::guarded(|| VerifyingKey::from_bytes(&b).ok().map(|k| (k.to_bytes(), k.is_weak(), curve25519_dalek::edwards::EdwardsPoint::from(k).compress().0)));
+                    match (got, &want) {
+                        (Err(e), _) => ctx.violation("verify.key_decode", &format!("panic: {}", e), case.clone()),
+                        (Ok(None), None) => {}
+                        (Ok(Some((tb, weak, pt))), Some(w)) => {
+                            n_dec += 1;
+                            let small = ed::torsion().iter().any(|t| t == w);
+                            if tb != b || pt != w.compress() || weak != small {
+                                ctx.violation("verify.key_decode", &format!("key {} decodes to {} (weak={}) but the curve point is {} (small order={})", hex(&b), hex(&pt), weak, hex(&w.compress()), small), case.clone());
+                            }
+                        }
+                        (Ok(g), w) => ctx.violation("verify.key_decode", &format!("VerifyingKey::from_bytes accepts={} but the bytes {} a curve point", g.is_some(), if w.is_some() { "are" } else { "are not" }), case.clone()),
+                    }
+                    // and an (invalid unless the relation happens to hold) signature through every verifier
+                    let s_int = U::from_u64(k + 1);
+                    let mut sig = [0u8; 64];
+                    sig[..32].copy_from_slice(&ed::mul_base(&s_int).compress());
+                    sig[32..].copy_from_slice(&s_int.to_le32());
+                    drive(ctx, &b, b"band", &sig, None, "noncanonical_band_key", &stats);
+                }
+            }
+        }
+        ctx.count("noncanonical_band_keys_decoded", n_dec);
+    }
     // ---- (4) contexts longer than 255 bytes must be refused by every prehashed verifier
     for cl in [256usize, 257, 1000] {
         let seed = &sd[0];
